@@ -107,3 +107,10 @@ pub open spec fn we_factors_ok(w: Seq<Factor>, c: Carrier, exp: ExportedEnergy, 
     &&& (rv(exp.an) != 0real && rv(exp.nepus_an) != 0real ==> favg_ok(w, c, exp.by_src_an@, Dest::A_NEPB, Step::A) && favg_ok(w, c, exp.by_src_an@, Dest::A_NEPB, Step::B))
     &&& (rv(exp.an) != 0real && rv(exp.grid_an) != 0real ==> favg_ok(w, c, exp.by_src_an@, Dest::A_RED, Step::A) && favg_ok(w, c, exp.by_src_an@, Dest::A_RED, Step::B))
 }
+pub proof fn lemma_find_some(w: Seq<Factor>, c: Carrier, s: Source, d: Dest, st: Step, j: int)
+    requires 0 <= j < w.len(), fkey(w[j], c, s, d, st),
+    ensures find_spec(w, c, s, d, st) is Some,
+    decreases j,
+{
+    if j > 0 && !fkey(w[0], c, s, d, st) { assert(w.drop_first()[j - 1] == w[j]); lemma_find_some(w.drop_first(), c, s, d, st, j - 1); }
+}
